@@ -46,8 +46,10 @@ func gCorpus(c *Ctx, mode int) []*corpus.Spec {
 	}
 	if c.Thorough() {
 		out = append(out, corpus.Random(c.Seed, 6)...)
+		out = append(out, corpus.RandomRich(c.Seed, 8)...)
 	} else {
 		out = append(out, corpus.Random(c.Seed, 2)...)
+		out = append(out, corpus.RandomRich(c.Seed, 3)...)
 	}
 	if only := os.Getenv("VERIF_ONLY"); only != "" {
 		var f []*corpus.Spec
@@ -69,6 +71,7 @@ func gParse(c *Ctx, mode int, tag string) {
 		return
 	}
 	specs := gCorpus(c, mode)
+	c.classifyLALR(y, specs)
 	variants := GoVariants
 	g, err := c.Generate(y, specs, append(append([]string{}, variants...), "ts"), nil)
 	if err != nil {
